@@ -1,0 +1,10 @@
+//go:build verif
+
+package nathole
+
+// VerifSizes returns the number of registered xtcp proxies and of live sessions (verification tooling only).
+func (c *Controller) VerifSizes() (clients int, sessions int) {
+	c.mu.RLock()
+	defer c.mu.RUnlock()
+	return len(c.clientCfgs), len(c.sessions)
+}
